@@ -90,7 +90,8 @@ def gen_concat(rng):
             ix = FULL
         tails.append(ix)
     case = dict(kind='concat', lens=lens, tail=tail, head=head, tails=maybe_trunc(rng, tails),
-                wrap=[rng.random() < 0.5 for _ in range(nparts)], arr=[rng.random() < 0.5 for _ in range(16)])
+                wrap=[rng.random() < 0.5 for _ in range(nparts)], arr=[rng.random() < 0.5 for _ in range(16)],
+                part_tf=rng.random() < 0.15)
     if tail and rng.random() < 0.25:
         # every part is a LazyIndexer with the same first-stage selection on the tail axes (sometimes empty):
         # shape / len of the concatenation and scalar / list head indices
@@ -202,6 +203,14 @@ def run_concat_impl(case):
         if case.get('k1tail') is not None:
             k1 = (slice(None),) + py_tuple(case['k1tail'], case['arr'], 7)
             inds = [LazyIndexer(p, k1) for p in parts]
+        elif case.get('part_tf'):
+            # every part is a LazyIndexer with its own dtype-changing transform (as the v1 reader's vis parts):
+            # what the concatenation delivers, and advertises as dtype, is the transformed data
+            from katdal.lazy_indexer import LazyTransform
+            tf = LazyTransform('to_c8', lambda x, keep: x.astype(np.complex64) * np.complex64(1 + 0.5j), dtype=np.complex64)
+            inds = [LazyIndexer(p, transforms=[tf]) for p in parts]
+            parts = [p.astype(np.complex64) * np.complex64(1 + 0.5j) for p in parts]
+            res['dtype'] = str(ConcatenatedLazyIndexer(inds).dtype)
         else:
             inds = [LazyIndexer(p) if w else p for p, w in zip(parts, case['wrap'])]
         cat = ConcatenatedLazyIndexer(inds)
@@ -301,6 +310,14 @@ def judge_concat(ctx, c, replies, impl, whole):
     from harness.props import c05 as me  # noqa: F401
     in_g = head_in_grammar(head, total)
     ctx.tag('concat-grammar' if in_g else 'concat-malformed')
+    if impl.get('dtype') is not None:
+        ctx.tag('concat-part-transforms')
+        if impl['dtype'] != str(whole.dtype):
+            return (f"concatenated indexer over parts with a dtype-changing transform advertises dtype {impl['dtype']}, "
+                    f'its parts deliver {whole.dtype}')
+        if impl['err'] is None and in_g and impl['out'].dtype != whole.dtype:
+            return (f"concatenated indexer over parts with a dtype-changing transform returns dtype {impl['out'].dtype}, "
+                    f'its parts deliver {whole.dtype}')
     if impl['err'] is not None:
         if in_g:
             return (f"concatenated indexer raised {impl['err']} ({impl.get('errmsg', '')}) on a supported head index; "
